@@ -368,6 +368,58 @@ def make_combine_run(ranges, orth, vecs):
     return run
 
 
+def make_combine_range_run(side, ix):
+    """combineSfuncs, one-sided transition with an orthogonal function given: the weight of the
+    fixed function is exp(-((distance in normalised index from that end)/range)^2), and `range`
+    varies radially from the separatrix value towards the `_inner` value for contours inside
+    the separatrix (global_xind < 0) and towards the `_outer` value outside -- at BOTH ends
+    alike (C16: start and end of a region are exchanged by a reflection)."""
+
+    def run(ctx):
+        from hypnotoad.core import equilibrium as E
+
+        r = object.__new__(E.EquilibriumRegion)
+        ny, L = ctx.real("ny_noguards"), ctx.real("L")
+        pre, nyt = ctx.real("N_norm_prefactor"), ctx.real("ny_total")
+        ctx.assume(And(ny >= 1, L > 0, pre > 0, nyt >= ny))
+        r.ny_noguards, r.ny_total, r.psi, r.name = ny, nyt, None, "r"
+        r.user_options = types.SimpleNamespace(N_norm_prefactor=pre, sfunc_checktol=1.0e-13)
+        r.nonorthogonal_options = types.SimpleNamespace(nonorthogonal_radial_range_power=1.0)
+        sp = {}
+        for sd in ("lower", "upper"):
+            for suf in ("", "_inner", "_outer"):
+                k = "nonorthogonal_range_%s%s" % (sd, suf)
+                if sd == side:
+                    sp[k] = ctx.real(k)
+                    ctx.assume(sp[k] > 0)
+                else:
+                    sp[k] = None
+        r.getSpacings = lambda: dict(sp)
+        r.nxOutsideSeparatrix = lambda: 4
+        r.nxInsideSeparatrix = lambda: 4
+        fixed, sorth = UFunc(ctx, "sfixed"), UFunc(ctx, "sorth")
+        r.getSfuncFixedSpacing = lambda *a, **k: fixed
+        r.getSfuncFixedPerpSpacing = lambda *a, **k: (fixed, None)
+        r._checkMonotonic = lambda lst, **kw: None
+        contour = types.SimpleNamespace(global_xind=ix, totalDistance=lambda psi=None: L)
+        new = E.EquilibriumRegion.combineSfuncs(r, contour, sorth, None, None)
+        imid = ctx.real("i_inside")
+        ilen = 2 * ny
+        ctx.assume(And(imid > 0, imid < ilen))
+        v = new(numpy.array([imid], dtype=object))[0]
+        with spec_mode():
+            xw = (abs(ix) / 3.0) if ix != 0 else 0.0
+            far = sp["nonorthogonal_range_%s_%s" % (side, "inner" if ix < 0 else "outer")]
+            rng = (1.0 - xw) * sp["nonorthogonal_range_%s" % side] + xw * far
+            dist = imid if side == "lower" else ilen - imid
+            w = (-((dist / (pre * nyt) / rng) ** 2)).exp()
+            a, c = fixed.at(imid), sorth.at(imid)
+            ctx.oblige(v - c == w * (a - c), "weight of the fixed %s function = exp(-((distance from the %s end in normalised index)/range)^2) with range interpolated towards the %s value" % (side, side, "inner" if ix < 0 else "outer"))
+        return new
+
+    return run
+
+
 def sqrt_raise_ok(path):
     return isinstance(path.exc, ValueError)
 
@@ -712,6 +764,7 @@ def build(S):
         for el, eu in ((0, 0), (2, 0), (0, 2), (2, 2)):
             for wf in (True, False):
                 S.contract("getRegridded[extend=%d/%d,%s]" % (el, eu, "sfunc" if wf else "uniform"), "hypnotoad.core.equilibrium:PsiContour.getRegridded", make_regrid_run(el, eu, wf), shape="4 points + guards; fine contour, extension and refinement are stubs", feas_timeout_ms=4000)
+        add_combine_ranges(S)
         for method in ("sqrt", "monotonic", "linear"):
             for explicit in (False, True):
                 S.contract("getSfuncFixedSpacing[%s%s]" % (method, ",explicit spacings" if explicit else ""), E_ + "getSfuncFixedSpacing", make_fixed_spacing_run(method, explicit), shape="symbolic npoints, distance, N_norm_prefactor, ny_total; helper functions are recorder stubs")
@@ -719,6 +772,12 @@ def build(S):
             for ew in (True, False):
                 for explicit in (False, True):
                     S.contract("getSfuncFixedPerpSpacing[%s.%s%s]" % ("wall" if sw else "X", "wall" if ew else "X", ",explicit spacings" if explicit else ""), E_ + "getSfuncFixedPerpSpacing", make_perp_spacing_run(sw, ew, explicit), shape="symbolic N, N_norm_prefactor, ny_total, spacings, angles; interpSSperp / monotonic helper are recorder stubs")
+
+
+def add_combine_ranges(S):
+    for side in ("lower", "upper"):
+        for ix in (-2, 0, 2):
+            S.contract("combineSfuncs[range %s, global_xind=%d]" % (side, ix), E_ + "combineSfuncs", make_combine_range_run(side, ix), expected_exceptions=(ValueError,), shape="symbolic ny, L, ranges; component functions uninterpreted", feas_timeout_ms=4000)
 
 
 def add_mirror(S):
